@@ -199,29 +199,37 @@ class FrameDecoder:
 class Check(PropertyCheck):
     prop = "C05"
     design_ref = "§5 C05"
-    level_text = ("Lean theorems, by invariant over ALL sequences of inputs, about the executable model H2Map of "
-                  "Http2Client's stream-id translation, stream_queue, provisional_max_concurrency and resume rule (with the "
-                  "recursion of _handle_event as an explicit call stack), hyper-h2 abstracted to window / open-state per "
-                  "stream, and BufferedH2Connection's send buffers: id_maps_inverse, no_stream_lost_or_duplicated, queue_fifo, "
-                  "queue_nonempty_implies_no_capacity, open_le_limit, response_routed, buffered_bytes_conserved. The model is "
-                  "tied to the code by replaying, in lock step, the events the real Http2Client received in end-to-end runs "
-                  "of interleaved, arbitrarily segmented multi-stream scripts (frames written, events passed up, queue, id "
-                  "map, open streams, buffers compared after every call), and by direct differential runs of "
-                  "BufferedH2Connection; the property itself is checked on what two independent h2 peers decode.")
-    level_note = ("trusted: hyper-h2/hpack (framing, stream state machine, flow-control accounting: the model takes the EVENTS "
-                  "h2 reports as input and abstracts its state to window + open flags per stream; the abstraction is validated "
-                  "by the lock-step comparison, not proved); HttpStream delivers per stream the grammar headers, data*, "
-                  "[trailers], end | error (C03) — the theorems assume the first event of a stream is its headers and that no "
-                  "data follows the end of a message. Http2Server's side (client-facing BufferedH2Connection) is covered by the "
-                  "same send-buffer model in the `buf` cases and by the peer oracle, its request demultiplexing only by the "
-                  "oracle.")
+    level_text = ("Lean theorems about EVERY reachable state of the executable model H2Map of Http2Client (stream-id "
+                  "translation, stream_queue, provisional_max_concurrency, the resume rule with the recursion of "
+                  "_handle_event as an explicit call stack, handle_h2_event, close_connection and the failing of queued "
+                  "streams), proved by one invariant through every iteration of the resume loop (reach_inv): id_maps_inverse "
+                  "(+ injective), no_stream_lost_or_duplicated (passed-on ++ queued = submitted, per stream, in order, on the "
+                  "stream's own upstream id; no_stream_lost_on_close), queue_fifo (opened ++ queued = arrival order), "
+                  "queue_nonempty_implies_no_capacity, open_le_limit, response_routed; and about BufferedH2Connection's send "
+                  "buffers for all windows / frame sizes: buffered_bytes_conserved (send_data incl. frame-size splitting, "
+                  "the flush loop, stream_window_updated), trailers_after_data. The model is tied to the code by replaying, in "
+                  "lock step, the events the real Http2Client received in end-to-end runs of interleaved, arbitrarily "
+                  "segmented multi-stream scripts (frames written incl. their sizes, events passed up with their ids, queue, "
+                  "id map, open streams, buffers compared after every call), and by direct differential runs of "
+                  "BufferedH2Connection; the property itself is checked on what two independent, self-accounting h2 peers "
+                  "decode (per-stream content, order of opening, concurrency limit, flow-control windows).")
+    level_note = ("trusted / not proved: hyper-h2/hpack (framing, stream state machine, flow-control accounting) — the model takes "
+                  "the EVENTS h2 reports as input and abstracts its state to window + open flags per stream; that abstraction "
+                  "is validated by the lock-step comparison only. Hypothesis of the theorems (Good): HttpStream hands over, "
+                  "per stream, the request head first and exactly once (C03). PARTIAL: buffered_bytes_conserved is proved for "
+                  "send_data, the flush loop and stream_window_updated; that connection_window_updated (the round robin that "
+                  "calls them) and hyper-h2's receive path compose them as modelled is covered by the differential run, not by "
+                  "a theorem; 'no data is submitted after the end of a message' is assumed, not proved. Http2Server's "
+                  "demultiplexing of client frames into flows is checked by the peer oracle only; its send side uses the same "
+                  "BufferedH2Connection. When a WINDOW_UPDATE arrives in one segment with a GOAWAY hyper-h2 raises inside "
+                  "receive_data; what is then left in the send buffers of the closed connection is not compared.")
     technique = "Lean 4 proof (invariants of a transition system, induction over input histories) + lock-step differential correspondence of the model with the real Http2Client/BufferedH2Connection + peer-decoded property oracle"
     rule = ("layer cases: 2-6 concurrent client streams, each headers/data*/[trailers]/end or reset, interleaved at random, "
             "client and server bytes flushed in 1-4 random segments, server SETTINGS with MAX_CONCURRENT_STREAMS 0-3 and small "
             "INITIAL_WINDOW_SIZE, responses in random order, RST_STREAM, WINDOW_UPDATE, GOAWAY / close; half streamed. buf cases: "
             "1-3 streams with send sizes around window and frame size. distinct = distinct script; non-trivial = at least two "
             "streams reached the upstream side or a buffer was used.")
-    budget = {"quick": 500, "thorough": 20000}
+    budget = {"quick": 1200, "thorough": 20000}
     time_budget = {"quick": 35, "thorough": 650}
     fingerprints = [
         "mitmproxy.proxy.layers.http._http2:Http2Client._handle_event",
@@ -252,7 +260,7 @@ class Check(PropertyCheck):
     parallel = False
 
     def setup(self, tier):
-        self.parallel = tier == "thorough"
+        self.parallel = False
 
     # ---------------------------------------------------------------- generator
     def gen_layer(self, rng):
